@@ -34,7 +34,29 @@ type method struct {
 type snapCase struct {
 	types               []string
 	lockFirst, deferRel string
-	returns             string
+	returns             []string // EVERY return expression of the case, in source order (nested blocks included)
+	stmts               int      // statements of the case body
+}
+
+// every return expression below the statements (function literals excluded)
+func returnsIn(fset *token.FileSet, body []ast.Stmt) []string {
+	var out []string
+	for _, st := range body {
+		ast.Inspect(st, func(n ast.Node) bool {
+			switch x := n.(type) {
+			case *ast.FuncLit:
+				return false
+			case *ast.ReturnStmt:
+				parts := make([]string, len(x.Results))
+				for i, e := range x.Results {
+					parts[i] = exprString(fset, e)
+				}
+				out = append(out, strings.Join(parts, ", "))
+			}
+			return true
+		})
+	}
+	return out
 }
 
 type tswitch struct {
@@ -265,11 +287,13 @@ func main() {
 	}
 	var snapCases []snapCase
 	snapDefault := ""
+	snapBodyStmts := 0
 	for _, d := range f.Decls {
 		fd, ok := d.(*ast.FuncDecl)
 		if !ok || fd.Body == nil || fd.Recv != nil || fd.Name.Name != "snapshotOperand" {
 			continue
 		}
+		snapBodyStmts = len(fd.Body.List)
 		ast.Inspect(fd.Body, func(n ast.Node) bool {
 			sw, ok := n.(*ast.TypeSwitchStmt)
 			if !ok {
@@ -281,17 +305,12 @@ func main() {
 			}
 			for _, st := range sw.Body.List {
 				cc := st.(*ast.CaseClause)
-				ret := ""
-				for _, b := range cc.Body {
-					if rs, ok := b.(*ast.ReturnStmt); ok && len(rs.Results) == 1 {
-						ret = exprString(fset, rs.Results[0])
-					}
-				}
+				rets := returnsIn(fset, cc.Body)
 				if cc.List == nil {
-					snapDefault = ret
+					snapDefault = strings.Join(rets, " | ")
 					continue
 				}
-				sc := snapCase{returns: ret}
+				sc := snapCase{returns: rets, stmts: len(cc.Body)}
 				for _, e := range cc.List {
 					sc.types = append(sc.types, exprString(fset, e))
 				}
@@ -459,9 +478,9 @@ func main() {
 		if i == len(snapCases)-1 {
 			sep = ""
 		}
-		fmt.Fprintf(&b, "  { types := %s, lockFirst := %s, deferRelease := %s, returns := %s }%s\n", leanList(c.types), lean(c.lockFirst), lean(c.deferRel), lean(c.returns), sep)
+		fmt.Fprintf(&b, "  { types := %s, lockFirst := %s, deferRelease := %s, returns := %s, stmts := %d }%s\n", leanList(c.types), lean(c.lockFirst), lean(c.deferRel), leanList(c.returns), c.stmts, sep)
 	}
-	fmt.Fprintf(&b, "]\n\ndef snapshotDefault : String := %s\n", lean(snapDefault))
+	fmt.Fprintf(&b, "]\n\ndef snapshotDefault : String := %s\n\ndef snapshotBodyStmts : Nat := %d\n", lean(snapDefault), snapBodyStmts)
 	b.WriteString("\ndef typeSwitches : List TypeSwitch := [\n")
 	for i, s := range switches {
 		sep := ","
